@@ -1,4 +1,4 @@
-import IwModel.Lemmas.JsonPatchDecode
+import IwModel.Lemmas.JsonPatchExt
 /-! # C15 — JSON Patch gives the RFC 6902 result and a failed patch changes nothing
 
 `Patch.*` is the model of `src/json/iwjson.c` with the `fix:` commits of design_notes/C15.md (tied to the code by
@@ -152,6 +152,45 @@ theorem jbl_patch_rfc_partial (doc : JVal) (ops : List Rfc.Op) (hne : ops ≠ []
   · intro d' hr hc; exact binary_rfc_partial doc ops d' hu hok hr hc
   · intro hr hst
     exact binary_err_partial doc ops hu (fun o ho => ⟨(hok o ho).1, (hok o ho).2, hst o ho⟩) hr
+
+/-! ## The documented extensions do what their descriptions say -/
+
+/-- **increment** ("Value increment"): for a location below the root that exists (object member or array element) the
+    number there — and nothing else in the document — is replaced by target + value (`numAdd`: int+int, double+double,
+    mixed kinds keep the kind of the target); if it does not hold a number or the value is not a number, the error of
+    `_jbl_increment_node_data` is reported and nothing changes. -/
+theorem ext_increment (t : Node) (p : Ptr) (v : Node) (cp : List Nat) (c : Node) (hp : p ≠ []) (hs : p ≠ [[]])
+    (hl : locate t p = some cp) (hc : getP t cp = some c) :
+    applyOp t { op := .increment, path := p, frm := none, value := some v } =
+      (match numAdd v c with
+       | some c' => (setP t cp c', .ok)
+       | none => (t, (increment c v).2)) :=
+  increment_spec t p v cp c hp hs hl hc
+
+/-- **add_create**, parent exists: exactly `add` -/
+theorem ext_add_create_existing (t : Node) (p : Ptr) (v : Node) (h : (locate t p.dropLast).isSome) :
+    place t .addCreate p v = place t .add p v := add_create_existing t p v h
+
+/-- **add_create** ("Create intermediate object nodes for missing path segments"): if the path leads through
+    existing objects down to an object that lacks the next segment `k`, that object gets the new member
+    `k : {r1: {r2: … {last: value}}}` (nested one-member objects, the value innermost) and nothing else changes. -/
+theorem ext_add_create (t : Node) (pre : List Bytes) (k : Bytes) (r : List Bytes) (last : Bytes) (v : Node)
+    (pp : List Nat) (ms : List (Bytes × Node)) (ho : ObjPath t pre) (hl : locate t pre = some pp)
+    (hg : getP t pp = some (.obj ms)) (hk : ms.findIdx? (fun q => q.1 == k) = none) :
+    ∃ nest, applyOp t { op := .addCreate, path := pre ++ k :: r ++ [last], frm := none, value := some v } =
+        (setP t pp (.obj (ms ++ [(k, nest)])), .ok) ∧
+      erase nest = Merge.wrap (r ++ [last]) (some (erase v)) :=
+  add_create_spec t pre k r last v pp ms ho hl hg hk
+
+/-- **swap** ("Swap values of two nodes"): when both locations exist, neither lies inside the other and the path does
+    not end in `-`, the two values change places and nothing else changes. -/
+theorem ext_swap (t : Node) (fromP path : Ptr) (fp cp : List Nat) (vf vc : Node) (h : WF t)
+    (hp : path ≠ []) (hs : path ≠ [[]]) (hfe : fromP ≠ [])
+    (hlf : locate t fromP = some fp) (hlc : locate t path = some cp)
+    (hvf : getP t fp = some vf) (hvc : getP t cp = some vc)
+    (hd1 : isPrefix fp cp = false) (hd2 : isPrefix cp fp = false) (hnd : path.getLast? ≠ some dash) :
+    applyOp t { op := .swap, path := path, frm := some fromP, value := none } = (setP (setP t fp vc) cp vf, .ok) :=
+  swap_spec t fromP path fp cp vf vc h hp hs hfe hlf hlc hvf hvc hd1 hd2 hnd
 
 /-! ## Missing targets are errors (the part of "fails ⇒ error" that needs no RFC model) -/
 
